@@ -26,6 +26,7 @@ EvMatches(e, o) ==
          [] e.op = "testEnd" -> o.t = e.t /\ o.jmp = e.jmp /\ o.cnt = e.cnt /\ PtrOK(e.ptr, o.ptr)
          [] e.op = "testsEnded" -> o.txt = e.s /\ o.res = e.s
          \* the property fixes only whether the value is zero; the exact number is a diagnostic
+         [] e.op = "list" -> o.mode = e.mode /\ o.items = e.items
          [] e.op = "ret" -> (o.value = 0 <=> e.value = 0) /\ o.jmp = 0
          [] OTHER -> FALSE
 
